@@ -4,15 +4,16 @@ import re, subprocess, json, glob, os
 V = os.path.dirname(os.path.dirname(os.path.abspath(__file__)))
 table = subprocess.run(["python3", os.path.join(V, "tools/seeded_table.py")], capture_output=True, text=True).stdout.strip()
 notes = json.load(open(os.path.join(V, "seeded/NOTES.json")))
-pat = re.compile(r"missed at first|first run|missed by C18 at first|not caught|caught after|caught at seed 1 only|only after|invisible to|C14's: caught by C14|: caught by C10|: caught by C17")
-rounds = {1: [0, 0], 2: [0, 0], 3: [0, 0]}
+pat = re.compile(r"missed as delivered|genuinely missed|quantifies over|needs Simulation.clone|abstracts the engine|missed at first|first run|missed by C18 at first|not caught|caught after|caught at seed 1 only|only after|invisible to|C14's: caught by C14|: caught by C10|: caught by C17")
+rounds = {}
 for d in sorted(glob.glob(os.path.join(V, "seeded/C*/"))):
     k = os.path.basename(d.rstrip("/")); r = (int(k.split("-")[1]) + 1) // 2
+    rounds.setdefault(r, [0, 0])
     rounds[r][0] += 1
     if k in notes and pat.search(notes[k]):
         rounds[r][1] += 1
 summary = "\n".join(f"* round {r}: {n} changes, {n - m} caught by the property's own quick check as it stood when the change was delivered, {m} led to a strengthening (or are explained in the note column)"
-                    for r, (n, m) in rounds.items())
+                    for r, (n, m) in sorted(rounds.items()))
 block = "<!-- SEEDED-TABLE-BEGIN -->\n" + summary + "\n\n" + table + "\n<!-- SEEDED-TABLE-END -->"
 p = os.path.join(V, "DESIGN.md")
 s = open(p).read()
